@@ -259,8 +259,8 @@ def match_wrap(ent, tr, p, lo, hi, L):
     # corrections
     def corr(moved, basis_term, s):
         # moved = basis +/- L
-        if moved[0] == "bin" and moved[1] in ("+", "-") and moved[2] == basis_term:
-            d, at = tr(moved[3])
+        if moved[0] == "bin" and moved[1] in ("+", "-") and (moved[2] == basis_term or (moved[1] == "+" and moved[3] == basis_term)):
+            d, at = tr(moved[3] if moved[2] == basis_term else moved[2])
             if at:
                 return None
             sign = 1 if moved[1] == "+" else -1
